@@ -2,6 +2,7 @@
 import collections
 import copy
 import random
+import re
 
 from harness import core, gristenv as G, histgen, schedtrace as ST
 
@@ -161,9 +162,12 @@ def correspond(ctx):
   # the model's claim about the lookups-first rule (theorem lookups_first_is_needed), on the engine
   first, last = ST.limited2(lambda: lookups_rule_demo(False)), ST.limited2(lambda: lookups_rule_demo(True))
   ctx.bump('tie:lookups-first example replayed on the engine')
-  if first != [11, 2] or last != [10, 2]:
-    ctx.broken('correspondence:lookups_first_is_needed', 'engine order gives B = %r (model: [11, 2]); lookups last gives '
-               'B = %r (model: [10, 2], a lost invalidation)' % (first, last))
+  if last != [10, 2]:
+    ctx.broken('correspondence:lookups_first_is_needed', 'with lookup nodes processed last the engine gives B = %r '
+               '(model: [10, 2], a lost invalidation)' % (last,))
+  if first != [11, 2]:
+    # the engine's own order gives a stale value: a concrete failing input, reported by search (RULE_DOC) with its replay
+    ctx.notes.append('engine order gives B = %r on the lookups-first example (from scratch: [11, 2])' % (first,))
   cases = traced_cases(ctx, ctx.n(30, 500), p_try=0.12, p_tryo=0.2, p_lookup=0.4)
   for term, info, st, strict, _edges in cases:
     nontrivial = bool(st.get('need') or st.get('cycle') or st.get('opp'))
@@ -308,6 +312,134 @@ def gen_prog_case(rng, p_try, p_tryo=0.0, p_lookup=0.0):
   return versions, d, r, edits
 
 
+# ---- directed stream: documents whose result depends on WHEN a lookup index is brought up to date -------------------
+# witness: {'stream': 'lookupdoc', 'family', 'cols': [[id, formula]], 'data': {col: [values]}, 'bundles': [...], 'pseeds'}
+
+def lookupdoc_script(w):
+  n = len(next(iter(w['data'].values())))
+  cols = [{'id': c, 'type': 'Int', 'isFormula': False} for c in w['data']]
+  cols += [{'id': c, 'type': 'Any', 'isFormula': True, 'formula': f} for c, f in w['cols']]
+  return [[['AddTable', 'T', cols]], [['BulkAddRecord', 'T', [None] * n, copy.deepcopy(w['data'])]]] + \
+    copy.deepcopy(w['bundles'])
+
+
+def scratch_diff(script):
+  """Engine's own order: after every bundle the document must equal its own reload + Calculate (recalculation from
+  scratch).  None or (bundle index, description)."""
+  def go():
+    e, _ = G.new_doc()
+    for i, b in enumerate(script):
+      G.apply(e, b)
+      if i < 2:
+        continue
+      f = G.clone_by_reload(e)
+      G.apply(f, [['Calculate']])
+      a, c = G.snapshot(e), G.snapshot(f)
+      if a != c:
+        return i, 'bundle %d: the engine holds values that a recalculation from scratch does not: %s (engine vs scratch)' % (
+          i, '; '.join(G.diff_snapshots(a, c)[:4]))
+    return None
+  return ST.limited2(go)
+
+
+def lookup_chain(cols):
+  """Some lookup is keyed on a column that is itself computed through a lookup (directly or via a $reference)."""
+  f = dict((c, x) for c, x in cols)
+  uses = {c: bool(re.search(r'lookup(Records|One)\(', x)) for c, x in f.items()}
+  for c, x in f.items():
+    for d in re.findall(r'\$(\w+)', x):
+      if uses.get(d):
+        uses[c] = True
+  for x in f.values():
+    for key in re.findall(r'lookup(?:Records|One)\(\s*(\w+)\s*=', x):
+      if uses.get(key):
+        return True
+  return False
+
+
+def run_lookupdoc(w):
+  """None or (kind, description, bundle index)."""
+  script = lookupdoc_script(w)
+  try:
+    d = scratch_diff(script)
+  except ST.Timeout:
+    return 'nontermination', 'recalculation did not terminate within the time limit', 0
+  except Exception as x:
+    return 'exception', 'the document raised %r' % (x,), 0
+  if d:
+    return 'stale_vs_scratch', d[1], d[0]
+  diff = compare_runs(script, w.get('pseeds', []))
+  if diff:
+    return ('nontermination' if 'did not terminate' in diff[2] else 'order_dependent'), diff[2], diff[0]
+  return None
+
+
+LOOKUP_FORMS = ['len(T.lookupRecords(D=$D))', 'sum(r.E for r in T.lookupRecords(D=$D))', 'SUM(T.lookupRecords(D=$D).E)',
+                'len(T.lookupRecords(K=$K))']
+
+
+def gen_downstream(rng):
+  """A lookup-using column L, a column `down` = $L + $E whose id sorts BEFORE L; one bundle changes the key of row j so
+  that L changes in a row i < j, and independently dirties `down` in row i."""
+  down, look = rng.choice([('B', 'Z'), ('A', 'S'), ('A_total', 'Sum'), ('C', 'L')])
+  form = rng.choice(LOOKUP_FORMS)
+  n = rng.choice([2, 3, 4])
+  i = rng.randint(1, n - 1)
+  j = rng.randint(i + 1, n)
+  cols = [[look, form], [down, '$%s + $E' % look]]
+  if '$K' in form:
+    cols.insert(0, ['K', '$D + 1'])
+  data = {'D': list(range(1, n + 1)), 'E': [rng.choice([0, 1, 100]) for _ in range(n)]}
+  acts = [['UpdateRecord', 'T', j, {'D': data['D'][i - 1]}], ['UpdateRecord', 'T', i, {'E': rng.choice([5, 9, 1000])}]]
+  if rng.random() < 0.3:
+    acts.reverse()
+  return {'family': 'downstream', 'cols': cols, 'data': data, 'bundles': [acts]}
+
+
+def gen_chain(rng):
+  """A = count lookup on D; B = count lookup on A (+ $E); X = count lookup on B: index of B is keyed on a column computed
+  through the index of A, which is keyed on a column computed through the index of D.  Names are drawn at random: the
+  engine processes the index nodes in name order."""
+  a, b, x = rng.sample(['A', 'B', 'P', 'Y', 'Z', 'AA', 'M'], 3)
+  cols = [[a, 'len(T.lookupRecords(D=$C))'], [b, 'len(T.lookupRecords(%s=$K2)) + $E' % a], [x, 'len(T.lookupRecords(%s=$E))' % b]]
+  n = rng.choice([2, 2, 3])
+  data = {'D': [1, 2, 3][:n], 'C': [1, 9, 9][:n], 'K2': [7, 2, 2][:n], 'E': [0] * n}
+  r = rng.randint(1, n)
+  acts = [['UpdateRecord', 'T', 2, {'D': 1}], ['UpdateRecord', 'T', r, {'E': 5}]]
+  return {'family': 'chain', 'cols': cols, 'data': data, 'bundles': [acts]}
+
+
+RULE_DOC = {'family': 'downstream', 'cols': [['Z', 'len(T.lookupRecords(D=$D))'], ['B', '$Z + $E']],
+            'data': {'D': [1, 2], 'E': [0, 0]},
+            'bundles': [[['UpdateRecord', 'T', 2, {'D': 1}], ['UpdateRecord', 'T', 1, {'E': 9}]]]}
+
+
+def search_lookupdocs(ctx, k):
+  cases = [copy.deepcopy(RULE_DOC)]
+  cases += [gen_downstream(ctx.rng) for _ in range(ctx.n(10, 200))]
+  cases += [gen_chain(ctx.rng) for _ in range(ctx.n(6, 120))]
+  for w in cases:
+    w['stream'] = 'lookupdoc'
+    w['pseeds'] = [ctx.rng.randrange(1 << 30) for _ in range(k)]
+    ctx.count(('lookupdoc', repr(w)), nontrivial=True, kind='search:lookup %s' % w['family'])
+    bad = run_lookupdoc(w)
+    if bad:
+      w['bundles'] = w['bundles'][:max(1, bad[2] - 1)]
+      chain = lookup_chain(w['cols'])
+      kind = bad[0] if bad[0] in ('nontermination', 'exception') else \
+        ('lookup_index_order' if chain else bad[0])
+      ctx.violation(kind, bad[1] + '; formulas %r, data %r, bundle %r' % (w['cols'], w['data'], w['bundles'][-1]), w)
+    if too_many_hangs(ctx):
+      return
+
+
+def _index_order_matcher(v, entry):
+  """Only: a lookup keyed on a column that is itself computed through a lookup (the engine brings lookup indexes up to
+  date in name order, not in dependency order)."""
+  w = v.get('replay', {})
+  return v.get('kind') == 'lookup_index_order' and w.get('stream') == 'lookupdoc' and lookup_chain(w.get('cols', []))
+
+
 def too_many_hangs(ctx):
   return sum(1 for v in ctx.violations if v['kind'] == 'nontermination') >= 2
 
@@ -337,6 +469,8 @@ def search(ctx):
     if too_many_hangs(ctx):
       return
   ctx.log('search: histories done')
+  search_lookupdocs(ctx, k)
+  ctx.log('search: lookup documents done')
   # (a') edit sequences that create and break reference cycles (which cell is flagged depends on the order)
   for _ in range(ctx.n(25, 250)):
     script = cycle_break_script(ctx.rng)
@@ -407,6 +541,9 @@ def replay_tie(w, seconds=30):
 def replay(ctx, w):
   if w.get('stream') == 'tie':
     return replay_tie(w)
+  if w.get('stream') == 'lookupdoc':
+    bad = run_lookupdoc(w)
+    return bad[1] if bad else None
   if w.get('stream') == 'script':
     script = w['script']
   elif w.get('stream') == 'hist':
@@ -428,4 +565,4 @@ def _handler_matcher(v, entry):
   return v.get('kind') == 'handler_on_cycle' and w.get('stream') == 'handlers' and on_cycle_with_try(_versions_of(w))
 
 
-MATCHERS = {'c06_handler_on_cycle': _handler_matcher}
+MATCHERS = {'c06_handler_on_cycle': _handler_matcher, 'c06_lookup_index_order': _index_order_matcher}
